@@ -71,7 +71,7 @@ func c11Healthy(r *R) {
 		for k := 0; k < f.burst; k++ {
 			sz := sizeClasses[r.Choose(maxClass)]
 			if r.Tier == "thorough" && r.Chance(1) && f.burst < 20 {
-				sz = 4*1024*1024 - 64 - r.Choose(4096) // just under the frame limit
+				sz = 4*1024*1024 - 512 - r.Choose(4096) // the frame (payload + about 150 bytes of envelope) stays just under the limit
 			} else if r.Chance(2) {
 				sz = sizeClasses[7+r.Choose(2)]
 			}
